@@ -16,6 +16,7 @@ SRC = '''\
 import asyncio
 import icontract
 TRACE = []
+KEPT = []
 T = {}
 FAULT = {"at": None, "kind": None, "count": 0, "obj": None, "armed": False}
 class InjectedBase(BaseException): pass
@@ -98,6 +99,7 @@ async def af(x):
 @icontract.invariant(lambda self: c("i0", self))
 class K:
     def __init__(self, x):
+        KEPT.append(self)
         cross("init")
         self.x = x
     @icontract.require(lambda self, x: c("mp", x))
@@ -115,6 +117,28 @@ class K:
     def __repr__(self):
         cross("repr:K")
         return "K()"
+
+class WB(icontract.DBC):
+    @icontract.require(lambda self, x: c("wb", x))
+    def w(self, x):
+        cross("body:WB.w")
+        return R
+    @icontract.require(lambda self, x: c("awb", x))
+    async def aw(self, x):
+        cross("body:WB.aw")
+        return R
+class WC(WB):
+    # a second ("require else") group of preconditions
+    @icontract.require(lambda self, x: c("wc", x))
+    def w(self, x):
+        cross("body:w")
+        return R
+    @icontract.require(lambda self, x: ac("awc", x), error=Viol)
+    async def aw(self, x):
+        cross("body:aw")
+        await Tick()
+        cross("body2:aw")
+        return R
 '''
 SRC = SRC.replace("@icontract.invariant(lambda self: c(\"i1\", self))", "def errfac_m(self):\n    cross(\"errfac\")\n    return Viol(\"from factory\")\n\n@icontract.invariant(lambda self: c(\"i1\", self))")
 
@@ -125,6 +149,8 @@ CALLS = {
     "K": (False, ["i0", "i1"]),
     "m": (False, ["i0", "i1", "mp", "mq"]),
     "am": (True, ["i0", "i1", "amp", "amq"]),
+    "w": (False, ["wb", "wc"]),
+    "aw": (True, ["awb", "awc"]),
 }
 KINDS = ["exc", "base", "kbi"]
 
@@ -134,6 +160,7 @@ class Driver:
         self.ns = core.load_source(SRC, "c11")
         self.ns["T"].clear()
         self.obj = core.fresh_ctx_run(self.ns["K"], self.ns["Arg"]())
+        self.wc = core.fresh_ctx_run(self.ns["WC"])
 
     def invoke(self, call, obj):
         ns = self.ns
@@ -148,6 +175,10 @@ class Driver:
             return obj.m(x)
         if call == "am":
             return obj.am(x)
+        if call == "w":
+            return self.wc.w(x)
+        if call == "aw":
+            return self.wc.aw(x)
         raise ValueError(call)
 
     def run(self, call, obj, falsy, fault=None, susp_fault=None):
@@ -282,8 +313,14 @@ def check_scenario(drv, pristine, scen, acc, second=None):
                 # a second faulted call (BaseException at its first crossing ... enumerated by the caller) before the probes
                 t2, o2, inj2 = drv.run(second[0], obj, second[1], fault=(second[2], second[3]))
                 extra = (t2, summarize(o2))
-            return trace, outcome, injected, probes(drv, obj), extra
-        trace, outcome, injected, obs, extra = core.fresh_ctx_run(one)
+            kept_obs = None
+            if call == "K" and ns["KEPT"]:
+                # the instance whose constructor was faulted is still around: it must be checked like any other
+                kept = ns["KEPT"][-1]
+                kept_obs = [p for p in probes(drv, kept) if p[0] in ("m", "am")]
+            del ns["KEPT"][:]
+            return trace, outcome, injected, probes(drv, obj), extra, kept_obs
+        trace, outcome, injected, obs, extra, kept_obs = core.fresh_ctx_run(one)
         where = base_trace[plan[1]] if plan[0] == "cross" else "suspension#{}".format(plan[1])
         feats = {"call": call, "falsy": falsy, "plan": plan[0], "kind": plan[2], "at": where.split(":")[0], "where": where,
                  "second": None if second is None else "{}:{}@{}:{}".format(*second)}
@@ -300,14 +337,25 @@ def check_scenario(drv, pristine, scen, acc, second=None):
             if plan[2] == "close":
                 pass  # closing returns nothing to the caller; only the re-arming is judged
             elif outcome[0] != "exc":
-                viol("fault_swallowed", "fault {} at {!r}: the call returned normally".format(plan[2], where))
-                continue
+                # an Exception raised by a value __repr__ may be absorbed by reprlib; the call must then end as without the fault
+                # (a normal return is only possible when the message was built for a precondition group that was later overruled)
+                if not (where.startswith("repr") and plan[2] == "exc" and summarize(outcome) == summarize(base_outcome)):
+                    viol("fault_swallowed", "fault {} at {!r}: the call returned normally".format(plan[2], where))
+                    continue
             elif not chain_has(outcome[1], injected):
                 absorbed_ok = where.startswith("repr") and plan[2] == "exc" and type(outcome[1]).__name__ in ("ViolationError", "Viol")
                 if not absorbed_ok:
                     viol("fault_replaced", "fault {} at {!r}: surfaced {!r} which neither is nor chains the injected exception".format(
                         plan[2], where, outcome[1]))
                     continue
+        # (1b) the instance of a faulted constructor is re-armed as well
+        if kept_obs is not None:
+            want_kept = [p for p in pristine if p[0] in ("m", "am")]
+            if kept_obs != want_kept:
+                a, b = next((a, b) for a, b in zip(want_kept, kept_obs) if a != b)
+                viol("not_rearmed", "after fault {} at {!r} in the constructor: the instance itself - probe {}(falsy={}) expected {} {} got {} {}".format(
+                    plan[2], where, a[0], a[1], list(a[2]), a[3], list(b[2]), b[3]))
+                continue
         # (1) probes equal the pristine observations
         if obs != pristine:
             for a, b in zip(pristine, obs):
